@@ -648,7 +648,22 @@ class Engine(Interp):
                 names = [v["name"] for v in info["variants"]] if info and info.get("is_enum") else \
                     {"std::option::Option": ["None", "Some"], "std::result::Result": ["Ok", "Err"]}.get(adt_path)
                 if names and vname in names:
-                    return [(st, Enum(adt_path, {names.index(vname): tuple(v for v, _ in args)}), None, None)]
+                    vi = names.index(vname)
+                    val = Enum(adt_path, {vi: tuple(v for v, _ in args)})
+                    # built in a temporary so that its scalar payloads stay related to the arguments they were built from
+                    cell = ("T", c.frame.uid, c.bb, ("ctor", vname, len(c.results)))
+                    st.kill_cell(cell)
+                    st.cells[cell] = val
+                    for k, (v, loc) in enumerate(args):
+                        if isinstance(v, Int) and not v.is_const():
+                            l = self.lin_of(st, v, loc)
+                            if l is not None and not l.is_const():
+                                st.cons.add_eq(LinForm.var((cell, (("v", vi), k))) - l)
+                        elif loc is not None and not isinstance(v, Int):
+                            for pth, leaf in int_leaves(v):
+                                if not leaf.is_const() and st.leaf((loc[0], loc[1] + pth)) is not None:
+                                    st.cons.add_eq(LinForm.var((cell, (("v", vi), k) + pth)) - LinForm.var((loc[0], loc[1] + pth)))
+                    return [(st, val, (cell, ()), None)]
             fb = self.prog.bodies.get(path)
             if fb is None or fb.kind == "closure":
                 return None
